@@ -185,6 +185,15 @@ func c09Cases(u *JobUnit, js *JobService, m *JobMethod, yield func(*HdrCase) err
 			v := v
 			out = append(out, badWay{"malformed:" + v, &v})
 		}
+		if h.Type == "" || h.Type == "string" {
+			// a string header whose bytes are not valid UTF-8 is no string of the published type, whatever its format (Go server
+			// only: the value cannot travel through the JSON records the TypeScript half is fed from)
+			nu := ValidHeaderValue(h)
+			if len(nu) > 1 {
+				nu = nu[:1] + "\xff" + nu[1:]
+				out = append(out, badWay{"malformed:non_utf8", &nu})
+			}
+		}
 		return out
 	}
 	// (1b) spellings the reference does not judge (lenient forms): whatever the verdict, it must be a clean one
